@@ -1,4 +1,4 @@
-import UgoVerif.Proofs.VMExec
+import UgoVerif.Proofs.VMKeeps
 import Lean.Elab.Tactic
 /-
   `bytecode_immutable`, model half: no action of the VM model assigns the fields that
@@ -104,6 +104,13 @@ theorem keeps_noteTrace (op : Nat) : Keeps P (noteTrace op) := by
   simp only [noteTrace, exec_bind, exec_getS]
   split <;> exact h
 macro_rules | `(tactic| keeps_prim) => `(tactic| exact keeps_noteTrace _)
+theorem keeps_copyV (v : V) : Keeps P (copyV v) := by
+  apply Keeps.intro'; intro s h
+  simp only [copyV, exec_bind, exec_getS]
+  split
+  · exact h
+  · exact h
+macro_rules | `(tactic| keeps_prim) => `(tactic| exact keeps_copyV _)
 
 theorem keeps_curCode  : Keeps P (curCode ) := by unfold curCode; keeps
 macro_rules | `(tactic| keeps_prim) => `(tactic| exact keeps_curCode )
@@ -129,6 +136,8 @@ theorem keeps_vEqual (F : FloatOps) (l r : V) : Keeps P (vEqual F l r) := by unf
 macro_rules | `(tactic| keeps_prim) => `(tactic| exact keeps_vEqual _ _ _)
 theorem keeps_vBinaryOp (F : FloatOps) (tok : Tok) (l r : V) : Keeps P (vBinaryOp F tok l r) := by unfold vBinaryOp; keeps
 macro_rules | `(tactic| keeps_prim) => `(tactic| exact keeps_vBinaryOp _ _ _ _)
+theorem keeps_vUnary (F : FloatOps) (tok : Tok) (r : V) : Keeps P (vUnary F tok r) := by unfold vUnary; keeps
+macro_rules | `(tactic| keeps_prim) => `(tactic| exact keeps_vUnary _ _ _)
 theorem keeps_vIndexGet (t i : V) : Keeps P (vIndexGet t i) := by unfold vIndexGet; keeps
 macro_rules | `(tactic| keeps_prim) => `(tactic| exact keeps_vIndexGet _ _)
 theorem keeps_vIndexSet (t i v : V) : Keeps P (vIndexSet t i v) := by unfold vIndexSet; keeps
